@@ -212,6 +212,14 @@ func regLoad(r reg, i instruction, w expr.Width) expr.Expr {
 	if num == 0 {
 		return expr.Zero
 	}
+
+	// Always read the whole register and cut the value read. A narrow read
+	// would tell an emulation only the lower bytes of a register it reads
+	// for the first time.
+	if w < i.xlen {
+		full := expr.NewRegLoad(expr.Key(num.String()), i.xlen)
+		return exprtools.NewWidthGadget(full, w)
+	}
 	return expr.NewRegLoad(expr.Key(num.String()), w)
 }
 
